@@ -57,7 +57,11 @@ def one(seed):
         shutil.rmtree(tmp, ignore_errors=True)
 
 
-with cf.ThreadPoolExecutor(6) as ex:
+# per property: its own seeds and the re-introduced defects (the full cross matrix over all
+# seeds is what tools/runmut.py prints; it takes a minute per property and adds nothing here)
+if prop != 'all':
+    seeds = [s for s in seeds if s[2] == prop or s[0].startswith('regress/')]
+with cf.ThreadPoolExecutor(8) as ex:
     res = list(ex.map(one, seeds))
 
 for pid in props:
